@@ -10,6 +10,7 @@ use super::*;
 use std::ffi::c_void;
 
 const NFD: usize = 2;
+
 const FDS: [c_int; NFD] = [5, 6];
 
 #[derive(Copy, Clone)]
@@ -31,10 +32,18 @@ fn slot(fd: c_int) -> usize {
     }
 }
 
+// Linux sock_set_timeout(): tv_usec outside [0, 10^6) is EDOM; a negative tv_sec is accepted and stored as 0.
 extern "C" fn k_setsockopt(fd: c_int, level: c_int, name: c_int, value: *const c_void, _len: libc::socklen_t) -> c_int {
     unsafe {
         if level == libc::SOL_SOCKET {
-            let tv = *value.cast::<libc::timeval>();
+            let mut tv = *value.cast::<libc::timeval>();
+            if tv.tv_usec < 0 || tv.tv_usec >= 1_000_000 {
+                set_errno(libc::EDOM);
+                return -1;
+            }
+            if tv.tv_sec < 0 {
+                tv = ZERO_TV;
+            }
             if name == libc::SO_RCVTIMEO {
                 KERNEL[slot(fd)].rcv = tv;
             } else if name == libc::SO_SNDTIMEO {
@@ -45,7 +54,7 @@ extern "C" fn k_setsockopt(fd: c_int, level: c_int, name: c_int, value: *const c
     0
 }
 
-unsafe extern "C" fn k_getsockopt(
+pub(super) unsafe fn k_getsockopt(
     fd: c_int,
     level: c_int,
     name: c_int,
@@ -74,21 +83,67 @@ fn s_del_event(_fd: c_int) -> std::io::Result<()> {
     Ok(())
 }
 
-fn want_limit(tv: &libc::timeval) -> u64 {
-    let ns = (tv.tv_sec as u64) * 1_000_000_000 + (tv.tv_usec as u64) * 1_000;
-    if ns == 0 {
-        u64::MAX
-    } else {
-        ns
+// ---- conversion as an uninterpreted function (Ackermann table) ---------------------------------
+// The coherence harnesses below are about WHICH value the cache holds (per descriptor, per direction,
+// after which operation), not about the arithmetic of the conversion. `get_time_limit` is therefore
+// stubbed by a memoised arbitrary function of (tv_sec, tv_usec) that only keeps the clause C19 names:
+// the zero timeval means "no limit" (u64::MAX) and nothing else does. The arithmetic itself is decided
+// for every timeval by `c19_conversion_all_timeval` (real get_time_limit against a 128-bit reference).
+const UF_N: usize = 8;
+static mut UF_KEYS: [(libc::time_t, libc::suseconds_t); UF_N] = [(0x19a, 0x19b); UF_N];
+static mut UF_VALS: [u64; UF_N] = [0x19c; UF_N];
+static mut UF_USED: usize = 0x19d;
+
+fn uf_limit(tv: &libc::timeval) -> u64 {
+    unsafe {
+        let mut i = 0;
+        while i < UF_N {
+            if i < UF_USED && UF_KEYS[i].0 == tv.tv_sec && UF_KEYS[i].1 == tv.tv_usec {
+                return UF_VALS[i];
+            }
+            i += 1;
+        }
+        assert!(UF_USED < UF_N, "conversion table of the harness is large enough");
+        let v: u64 = kani::any();
+        if tv.tv_sec == 0 && tv.tv_usec == 0 {
+            kani::assume(v == u64::MAX);
+        } else {
+            kani::assume(v != u64::MAX && v != 0);
+        }
+        UF_KEYS[UF_USED] = (tv.tv_sec, tv.tv_usec);
+        UF_VALS[UF_USED] = v;
+        UF_USED += 1;
+        v
     }
 }
 
-fn any_tv() -> libc::timeval {
+/// The limit hooked I/O must apply for a socket whose option currently holds `tv` (the kernel model only stores
+/// non-negative fields with tv_usec < 10^6): the repository's own conversion - stubbed by `uf_limit` in the coherence
+/// harnesses, the real function in `c19_history_*`; its arithmetic is decided by `c19_conversion_all_timeval`.
+fn want_limit(tv: &libc::timeval) -> u64 {
+    get_time_limit(tv)
+}
+
+/// get_time_limit for every non-negative timeval against a 128-bit reference: 0 means unlimited (u64::MAX),
+/// otherwise the saturated nanosecond count; never 0.
+#[kani::proof]
+fn c19_conversion_all_timeval() {
     let sec: libc::time_t = kani::any();
     let usec: libc::suseconds_t = kani::any();
-    kani::assume(sec >= 0 && sec < (1 << 20));
-    kani::assume(usec >= 0 && usec < 1_000_000);
-    libc::timeval { tv_sec: sec, tv_usec: usec }
+    kani::assume(sec >= 0 && usec >= 0);
+    let tv = libc::timeval { tv_sec: sec, tv_usec: usec };
+    let got = get_time_limit(&tv);
+    let total: u128 = (sec as u128) * 1_000_000_000u128 + (usec as u128) * 1_000u128;
+    let want = if total == 0 || total > u64::MAX as u128 { u64::MAX } else { total as u64 };
+    kani::assert(got == want, "the applied limit is the option value in nanoseconds (saturated), zero meaning no limit");
+    kani::cover!(sec == 0 && usec == 0, "zero timeval");
+    kani::cover!(sec == 0 && usec > 0 && usec < 1_000_000, "sub-second timeval");
+    kani::cover!(total > u64::MAX as u128, "saturating timeval");
+}
+
+fn any_tv() -> libc::timeval {
+    // every timeval: negative and out-of-range fields included (the kernel model decides what is accepted)
+    libc::timeval { tv_sec: kani::any(), tv_usec: kani::any() }
 }
 
 /// One operation of the history. kind: 0 set RCVTIMEO, 1 set SNDTIMEO, 2 query recv limit (what hooked
@@ -108,7 +163,8 @@ fn step(kind: u8, fd: c_int) {
                     (&raw const tv).cast(),
                     size_of::<libc::timeval>() as libc::socklen_t,
                 );
-                kani::assert(r == 0, "setsockopt succeeds when the kernel accepts the option");
+                let accepted = tv.tv_usec >= 0 && tv.tv_usec < 1_000_000;
+                kani::assert((r == 0) == accepted, "setsockopt returns the kernel's verdict");
             }
             2 => {
                 let got = recv_time_limit(fd);
@@ -127,37 +183,121 @@ fn step(kind: u8, fd: c_int) {
     }
 }
 
-fn history(n: usize) {
+fn history(n: usize) -> ([u8; 4], [bool; 4]) {
     unsafe {
         KERNEL = [Opt { rcv: ZERO_TV, snd: ZERO_TV }; NFD];
         DEL_EVENT_CALLS = 0;
     }
     let mut kinds = [0u8; 4];
+    let mut fds = [false; 4];
     let mut i = 0;
     while i < n {
         let kind: u8 = kani::any();
         kani::assume(kind <= 4);
         let which: bool = kani::any();
         kinds[i] = kind;
+        fds[i] = which;
         step(kind, if which { FDS[0] } else { FDS[1] });
         i += 1;
     }
-    kani::cover!(n >= 2 && kinds[0] == 2 && kinds[1] == 0, "set after a query");
-    kani::cover!(n >= 2 && kinds[0] == 0 && kinds[1] == 0, "set twice");
-    kani::cover!(n >= 3 && kinds[0] == 0 && kinds[1] == 4 && kinds[2] == 2, "set, close, query on the reused number");
+    (kinds, fds)
 }
 
+macro_rules! c19_long_cover {
+    (false, $k:ident, $f:ident) => {};
+    (true, $k:ident, $f:ident) => {
+        kani::cover!($k[0] == 0 && $k[1] == 4 && $k[2] == 2 && $f[0] == $f[1] && $f[1] == $f[2], "set, close, query on the reused number");
+    };
+}
 macro_rules! c19_harness {
-    ($name:ident, $n:expr) => {
+    ($name:ident, $n:expr, $long:tt) => {
         #[kani::proof]
         #[kani::unwind(6)]
-        #[kani::stub(libc::getsockopt, k_getsockopt)]
         #[kani::stub(crate::net::EventLoops::del_event, s_del_event)]
         fn $name() {
-            history($n);
+            let (k, f) = history($n);
+            // reachability witnesses (every one must be satisfiable at this history length)
+            kani::cover!(k[0] == 2 && k[1] == 0 && f[0] == f[1], "set after a query of the same socket");
+            kani::cover!(k[0] == 0 && k[1] == 0 && f[0] == f[1], "set twice on the same socket");
+            kani::cover!(k[$n - 2] == 0 && k[$n - 1] == 2 && f[$n - 2] == f[$n - 1], "query after a set");
+            c19_long_cover!($long, k, f);
         }
     };
 }
-c19_harness!(c19_history_2, 2);
-c19_harness!(c19_history_3, 3);
-c19_harness!(c19_history_4, 4);
+c19_harness!(c19_history_2, 2, false);
+c19_harness!(c19_history_3, 3, true);
+c19_harness!(c19_history_4, 4, true);
+
+// ---------------------------------------------------------------------------------------------
+// One operation from an ARBITRARY valid state (inductive step, DESIGN 2.6-1): histories of any length.
+// INV: for each descriptor number and direction the cache either has no entry or holds exactly the
+// conversion of the socket's current option value. Every INV state is reachable (set the options, then
+// query the directions that are to be cached), so a counterexample is a real history.
+fn any_kernel_tv() -> libc::timeval {
+    let sec: libc::time_t = kani::any();
+    let usec: libc::suseconds_t = kani::any();
+    kani::assume(sec >= 0);
+    kani::assume(usec >= 0 && usec < 1_000_000);
+    libc::timeval { tv_sec: sec, tv_usec: usec }
+}
+
+fn inv_holds() -> bool {
+    let mut ok = true;
+    let mut i = 0;
+    while i < NFD {
+        let fd = FDS[i];
+        let k = unsafe { KERNEL[i] };
+        if let Some(v) = RECV_TIME_LIMIT.get(&fd) {
+            ok &= *v.value() == want_limit(&k.rcv);
+        }
+        if let Some(v) = SEND_TIME_LIMIT.get(&fd) {
+            ok &= *v.value() == want_limit(&k.snd);
+        }
+        i += 1;
+    }
+    ok
+}
+
+fn arbitrary_valid_state() {
+    // any() order (the native replayer decodes it): per slot rcv.sec, rcv.usec, snd.sec, snd.usec, cached_rcv, cached_snd
+    let mut i = 0;
+    while i < NFD {
+        let rcv = any_kernel_tv();
+        let snd = any_kernel_tv();
+        unsafe { KERNEL[i] = Opt { rcv, snd } };
+        let cached_rcv: bool = kani::any();
+        let cached_snd: bool = kani::any();
+        if cached_rcv {
+            _ = RECV_TIME_LIMIT.insert(FDS[i], want_limit(&rcv));
+        }
+        if cached_snd {
+            _ = SEND_TIME_LIMIT.insert(FDS[i], want_limit(&snd));
+        }
+        i += 1;
+    }
+    unsafe { DEL_EVENT_CALLS = 0 };
+}
+
+macro_rules! c19_step {
+    ($name:ident, $kind:expr) => {
+        #[kani::proof]
+        #[kani::unwind(6)]
+        #[kani::stub(crate::net::EventLoops::del_event, s_del_event)]
+        #[kani::stub(crate::syscall::unix::get_time_limit, uf_limit)]
+        fn $name() {
+            unsafe { UF_USED = 0 };
+            arbitrary_valid_state();
+            let which: bool = kani::any();
+            let cached_before = RECV_TIME_LIMIT.contains_key(&FDS[0]) || SEND_TIME_LIMIT.contains_key(&FDS[0]);
+            step($kind, if which { FDS[0] } else { FDS[1] });
+            kani::assert(inv_holds(), "after the operation every cached limit equals the socket's current option value");
+            kani::cover!(which && cached_before, "the operation hits a socket with a cached limit");
+            kani::cover!(which && !cached_before, "the operation hits a socket without a cached limit");
+        }
+    };
+}
+c19_step!(c19_step_set_rcvtimeo, 0);
+c19_step!(c19_step_set_sndtimeo, 1);
+c19_step!(c19_step_query_recv_limit, 2);
+c19_step!(c19_step_query_send_limit, 3);
+c19_step!(c19_step_close_and_reuse, 4);
